@@ -15,7 +15,8 @@
    holds for the code as it is now - with no guard besides the representation invariant [frame_wf] (a frame without a
    usage column carries no usage value). *)
 From Coq Require Import ZArith QArith List Bool.
-From V Require Import Model.Sufficiency Model.SufficiencyRun Generated.SufficiencyGen Proofs.SufficiencyProofs.
+From V Require Import Model.Sufficiency Model.BillingRows Model.SufficiencyRun Generated.SufficiencyGen
+  Proofs.SufficiencyProofs Proofs.BillingRowsProofs.
 Import ListNotations.
 Open Scope Z_scope.
 
@@ -199,6 +200,44 @@ Example C10_regression_witness : params_ok as_coded = true /\ p_reporting_flag a
   dq_of (dataclass as_coded Billing Baseline true cx_off (mkframe true false (ex_full 340))) = [OffcycleReads].
 Proof. exact ex_as_coded. Qed.
 
+(* ---- daily / hourly rows handed to the billing classes (Model/BillingRows.v): one total per calendar month
+   (sum with min_count = 1), spread over the month's days by elapsed time ---- *)
+(* a day carries usage exactly when some day of its calendar month has a value: the published "days with valid usage"
+   is decided per billing period, for every list of days *)
+Theorem C10_billing_rows_present_iff : forall l r,
+  (exists q, spread_day true l r = Some q) <-> exists r', In r' l /\ d_key r' = d_key r /\ has_val r' = true.
+Proof. exact spread_present_iff_l. Qed.
+Print Assumptions C10_billing_rows_present_iff.
+
+Theorem C10_billing_rows_month_without_value : forall l r,
+  (forall r', In r' l -> d_key r' = d_key r -> d_val r' = None) -> spread_day true l r = None.
+Proof. exact spread_none_l. Qed.
+Print Assumptions C10_billing_rows_month_without_value.
+
+Theorem C10_billing_rows_whole_month : forall l r1 r2, d_key r1 = d_key r2 ->
+  ((exists q, spread_day true l r1 = Some q) <-> (exists q, spread_day true l r2 = Some q)).
+Proof. exact spread_whole_month_l. Qed.
+Print Assumptions C10_billing_rows_whole_month.
+
+(* the shares of the days of a month add up to the month's total, which is the sum of the values supplied *)
+Theorem C10_billing_rows_conserve : forall mc l k t, month_total mc k l = Some t -> 0 < month_len k l ->
+  (qsum (map (fun r => share t r (month_len k l)) (filter (in_key k) l)) == t)%Q /\
+  t = qsum (vals (filter (in_key k) l)).
+Proof. intros mc l k t H Hp. split; [exact (spread_conserves_l mc l k t H Hp)|exact (month_total_is_sum_l mc k l t H)]. Qed.
+Print Assumptions C10_billing_rows_conserve.
+
+(* regression: without min_count every day carries usage, so a month without any value is no longer missing *)
+Theorem C10_regression_billing_rows_min_count : forall l r, exists q, spread_day false l r = Some q.
+Proof. exact spread_no_min_count_l. Qed.
+Print Assumptions C10_regression_billing_rows_min_count.
+
+Example C10_billing_rows_witness :
+  map (fun o => match o with Some q => Some (Qred q) | None => None end) (spread true ex_days)
+  = [Some (120 # 71)%Q; Some (115 # 71)%Q; Some (120 # 71)%Q; None; None; Some (25 # 14)%Q; Some (12 # 7)%Q] /\
+  map (fun o => match o with Some _ => true | None => false end) (spread false ex_days)
+  = [true; true; true; true; true; true; true].
+Proof. exact ex_spread. Qed.
+
 (* ---- the frames of the correspondence: the run-length expansion (civil month cached per local day) is the plain one ---- *)
 Theorem C10_frame_expansion : forall t step n off obs tp cov g a,
   expand_seg (t, step, n, off, obs, tp, cov, g, a) = expand_seg_simple (Z.to_nat n) t step off obs tp cov g a.
@@ -278,3 +317,15 @@ Proof.
   exact (ef_off _ (params_exact_facts _ C10_code_params_exact)).
 Qed.
 Print Assumptions C10_code_warnings_never_change_verdict.
+
+(* the billing classes total the daily / hourly rows of a calendar month with min_count = 1 ... *)
+Theorem C10_code_billing_month_min_count : gen_billing_month_min_count = true.
+Proof. vm_compute. reflexivity. Qed.
+Print Assumptions C10_code_billing_month_min_count.
+
+(* ... hence, for the code as it is, a day of such data carries usage exactly when its calendar month has a value *)
+Theorem C10_code_billing_rows_present_iff : forall l r,
+  (exists q, spread_day gen_billing_month_min_count l r = Some q) <->
+  exists r', In r' l /\ d_key r' = d_key r /\ has_val r' = true.
+Proof. rewrite C10_code_billing_month_min_count. exact spread_present_iff_l. Qed.
+Print Assumptions C10_code_billing_rows_present_iff.
